@@ -303,10 +303,93 @@ def large_rule_checks(chk, pr, n, reps):
         chk.disagreement('check-large', {'op': op, 'path': pth, 'rules': [(unhx(s2[1:]), l) for s2, l in rules]}, x, y, 'large rule set')
 
 
+LOADING_SHAPES = ['rel-inside', 'abs-inside', 'rel-outside', 'abs-outside', 'chain', 'hard']
+NONLOADING_SHAPES = ['dangling', 'todir']
+
+
+def with_shape(ents, d, kind, k=1):
+    """the ignore file of directory `d` (which has an `I` entry) realised in another file-system shape: a symbolic link to a
+    rule file inside the tree (relative / absolute), outside the tree (relative / absolute), a chain of two links, a hard link.
+    The helper entries (shared rule file, second link) are ordinary entries of the tree."""
+    ents = list(ents)
+    here = d + '/' if d else ''
+    add = lambda e: ents.append(e) if e not in ents else None
+    if kind in ('rel-inside', 'abs-inside', 'hard'):
+        add(('D', 'shared')); add(('F', f'shared/r{k}.rules'))
+        ents.append(('S', d, f'{kind}|shared/r{k}.rules'))
+    elif kind in ('rel-outside', 'abs-outside'):
+        ents.append(('S', d, f'{kind}|r{k}.rules'))
+    elif kind == 'chain':
+        add(('D', 'shared')); add(('F', f'shared/r{k}.rules')); add(('F', here + 'second' + IGN))
+        ents.append(('S', d, f'chain|{here}second{IGN}|shared/r{k}.rules'))
+    return ents
+
+
+def with_dead_ignore(ents, d, kind):
+    """an entry called like the ignore file that resolves to no file: a dangling symbolic link, or a link to a directory.
+    Every walker must treat the directory as having no ignore file."""
+    here = d + '/' if d else ''
+    ents = [e for e in ents if not (e[0] in 'IS' and e[1] == d) and e[1] != here + IGN]
+    if kind == 'dangling':
+        return ents + [('L', here + IGN)]
+    tgt = next(e[1] for e in ents if e[0] == 'D' and e[1] != d)
+    return ents + [('F', here + IGN), ('S', d, 'todir|' + tgt)]
+
+
+def regular_twin(ents):
+    """the same rules as regular files; dead ignore entries removed (returns (twin, paths that exist only in the original))"""
+    only, out = [], []
+    for e in ents:
+        if e[0] == 'S' and e[2].startswith('todir|'):
+            only.append('/' + (e[1] + '/' if e[1] else '') + IGN); continue
+        if e[0] == 'S': continue
+        if e[0] == 'L' and (e[1] == IGN or e[1].endswith('/' + IGN)):
+            only.append('/' + e[1]); continue
+        out.append(e)
+    out = [e for e in out if not (e[0] == 'F' and '/' + e[1] in only)]
+    return out, only
+
+
+def has_shapes(ents):
+    return any(e[0] == 'S' or (e[0] == 'L' and (e[1] == IGN or e[1].endswith('/' + IGN))) for e in ents)
+
+
+def seed3_scenario(kind='rel-inside', d='data'):
+    """the minimal case of seeded change C09-3: data/.xvcignore -> ../shared/r1.rules holding `*.tmp`"""
+    ents = [('D', 'data'), ('D', 'data/sub'), ('D', 'other'), ('F', 'data/a.tmp'), ('F', 'data/b.dat'), ('F', 'data/sub/c.tmp'),
+            ('F', 'data/sub/d.dat'), ('F', 'other/o.tmp'), ('F', 'a.tmp'), ('F', (d + '/' if d else '') + IGN), ('I', d, '*.tmp\n')]
+    if kind in LOADING_SHAPES: return with_shape(ents, d, kind)
+    if kind in NONLOADING_SHAPES: return with_dead_ignore(ents, d, kind)
+    return ents
+
+
+def gen_shape_trees(rng, n_extra, chk=None):
+    """every shape once on the seeded scenario (data/ and the root alternating), then shapes on random trees"""
+    out = []
+    for i, kind in enumerate(LOADING_SHAPES + NONLOADING_SHAPES):
+        out.append(seed3_scenario(kind, 'data' if i % 3 else ''))
+        if chk: chk.count('shape:' + kind)
+    tries = 0
+    while len(out) < len(LOADING_SHAPES + NONLOADING_SHAPES) + n_extra and tries < 20 * n_extra + 20:
+        tries += 1
+        t = gen_tree(rng, None, special=False)
+        idirs = [e[1] for e in t if e[0] == 'I']
+        if not idirs: continue
+        for k, d in enumerate(idirs):
+            if rng.random() < 0.6:
+                kind = rng.choice(LOADING_SHAPES + NONLOADING_SHAPES)
+                if kind in LOADING_SHAPES: t = with_shape(t, d, kind, k + 1)
+                elif any(e[0] == 'D' and e[1] != d for e in t): t = with_dead_ignore(t, d, kind)
+                else: continue
+                if chk: chk.count('shape:' + kind)
+        if has_shapes(t): out.append(t)
+    return out
+
+
 def enc_tree(ents):
     out = []
     for e in ents:
-        if e[0] == 'I': out.append('I' + hx(e[1]) + ':' + hx(e[2]))
+        if e[0] in 'IS': out.append(e[0] + hx(e[1]) + ':' + hx(e[2]))
         else: out.append(e[0] + hx(e[1]))
     return ';'.join(out)
 
@@ -326,19 +409,28 @@ def normalise(ents):
             if e[1] in dirs and ('F', (e[1] + '/' if e[1] else '') + IGN) in ents: out.append(e)
         elif e[0] == 'D':
             if e[1] in dirs: out.append(e)
+        elif e[0] == 'S':
+            # a shape needs its directory, the entry of the ignore file, its rules (unless it loads nothing) and its helper entries
+            f = e[2].split('|')
+            need = [('F', (e[1] + '/' if e[1] else '') + IGN)] + [('F', a) for a in f[1:] if f[0] in ('rel-inside', 'abs-inside', 'chain', 'hard')] + \
+                   ([('D', f[1])] if f[0] == 'todir' else [])
+            if e[1] in dirs and all(n in ents for n in need) and (f[0] == 'todir' or any(i[0] == 'I' and i[1] == e[1] for i in ents)):
+                out.append(e)
         elif os.path.dirname(e[1]) in dirs:
-            if e[1].endswith(IGN) and not any(i[0] == 'I' and i[1] == os.path.dirname(e[1]) for i in ents): continue
+            d0 = os.path.dirname(e[1])
+            if e[1].endswith('/' + IGN) or e[1] == IGN:
+                if e[0] != 'L' and not any(i[0] in 'IS' and i[1] == d0 for i in ents): continue
             out.append(e)
-    return out
+    return out if len(out) == len(ents) else normalise(out)       # to the fixpoint: dropped entries may be needed by others
 
 
 def show_tree(ents):
-    return [(e[0] + ' ' + e[1] + (' = ' + repr(e[2]) if e[0] == 'I' else '')) for e in ents]
+    return [(e[0] + ' ' + e[1] + (' = ' + repr(e[2]) if e[0] in 'IS' else '')) for e in ents]
 
 
 def without_ignore(ents, d):
     f = (d + '/' if d else '') + IGN
-    return [e for e in ents if not (e[0] == 'I' and e[1] == d) and not (e[0] == 'F' and e[1] == f)]
+    return [e for e in ents if not (e[0] in 'IS' and e[1] == d) and not (e[0] == 'F' and e[1] == f)]
 
 
 def under(d, p):
@@ -506,6 +598,16 @@ def judge_tree(chk, pr, ents, reps, seed, max_us, full=True):
             changed = [p for p in sorted(set(got) ^ set(base)) if not under(d, p)]
             if changed:
                 msgs.append(f'scoping: removing {d}/{IGN} changed the status of {changed}, which are not under {d}/ ({who})')
+    # file-system shape of the ignore files: the same rules as regular files select the same paths in every walker
+    shaped = has_shapes(ents)
+    if shaped:
+        twin, only = regular_twin(ents)
+        a4, _ = pr.impl_only(['walk\t' + enc_tree(twin), f'pwalk\t3\t{seed}\t{max_us}\t' + enc_tree(twin)])
+        for got, base, who in ((serial, paths_of(a4[0]), 'walk_serial'), (par, paths_of(a4[1].partition(' ')[2].split(' | ')[0]), 'walk_parallel')):
+            diff = sorted((set(got) ^ set(base)) - set(only))
+            if diff:
+                msgs.append(f'ignore-file shape: {who} selects different paths when the same rules are regular files instead of '
+                            f'{sorted(e[2].split("|")[0] for e in ents if e[0] == "S") or ["a dangling link"]}: {diff}')
     # check-ignore level: model tie + scoping
     cand = sorted({('/' + e[1]) for e in ents if e[0] in 'FDL'})[:12]
     if cand:
@@ -514,6 +616,11 @@ def judge_tree(chk, pr, ents, reps, seed, max_us, full=True):
         for p, x, y in zip(cand, ci, cm):
             chk.count('checkignore:' + x)
             if y is not None and x != y: tie.append(('checkignore ' + p, x, y))
+        if shaped:
+            c4, _ = pr.impl_only([f'checkignore\t{enc_tree(twin)}\t{hx(p)}' for p in cand])
+            ch = [p for p, x, y in zip(cand, ci, c4) if x != y and p not in only]
+            if ch:
+                msgs.append(f'ignore-file shape: check-ignore answers differently for {ch} when the same rules are regular files')
         for d in idirs[:2]:
             e2 = enc_tree(without_ignore(ents, d))
             c2, _ = pr.impl_only([f'checkignore\t{e2}\t{hx(p)}' for p in cand])
@@ -579,6 +686,7 @@ def shrink_tree(ents, fails, max_steps=150):
 
 
 CORPUS = [
+    seed3_scenario(),      # C09-3: data/.xvcignore is a symbolic link to ../shared/r1.rules; runs first
     seed2_scenario(),      # C09-2: 59 patterns, paths matched by `*.dat` and by a `!keep-N.dat`; runs first, 25+ parallel walks / 24 listings
     # F8: a name-only line in a nested ignore file must not act outside its directory (symmetric: whichever of a/ b/ is visited first)
     [('D', 'a'), ('D', 'b'), ('F', 'a/' + IGN), ('I', 'a', 'g\n'), ('F', 'a/f'), ('F', 'a/g'),
@@ -641,9 +749,73 @@ def build_xvc(chk, hooked):
 # ---------------------------------------------------------------------------------------------
 # binary level
 
+def materialise_repo(sb, ents):
+    """entries -> files of a scratch repository, ignore files in their file-system shape; returns the root content `xvc init` wrote"""
+    is_ign = lambda q: q == IGN or q.endswith('/' + IGN)
+    for e in ents:
+        if e[0] == 'D': os.makedirs(sb.path(e[1]), exist_ok=True)
+    for e in ents:
+        if e[0] == 'F' and not is_ign(e[1]): sb.write(e[1], 'data of ' + e[1])
+    root_ign = sb.read(IGN).decode()
+    shapes = {e[1]: e[2].split('|') for e in ents if e[0] == 'S'}
+    ext = os.path.join(sb.base, 'ext')
+
+    def link(rel, target):
+        q = sb.path(rel)
+        os.makedirs(os.path.dirname(q), exist_ok=True)
+        if os.path.lexists(q): os.unlink(q)
+        os.symlink(target, q)
+    up = lambda d: '../' * len([c for c in d.split('/') if c])
+    for e in ents:
+        if e[0] == 'L' and is_ign(e[1]): link(e[1], 'no-such-target')
+        if e[0] != 'I': continue
+        d = e[1]
+        at = (d + '/' if d else '') + IGN
+        # the root file keeps the content `xvc init` wrote (generated XVCIGNORE_INITIAL_CONTENT) in front
+        content = (root_ign if d == '' else '') + e[2]
+        f = shapes.get(d, ['regular'])
+        if f[0] in ('rel-inside', 'abs-inside', 'hard', 'chain'):
+            rule = f[-1]
+            sb.write(rule, content)
+            if f[0] == 'rel-inside': link(at, up(d) + rule)
+            elif f[0] == 'abs-inside': link(at, sb.path(rule))
+            elif f[0] == 'hard':
+                if os.path.lexists(sb.path(at)): os.unlink(sb.path(at))
+                os.link(sb.path(rule), sb.path(at))
+            else:
+                link(f[1], up(os.path.dirname(f[1])) + rule); link(at, up(d) + f[1])
+        elif f[0] in ('rel-outside', 'abs-outside'):
+            os.makedirs(ext, exist_ok=True)
+            open(os.path.join(ext, f[1]), 'w').write(content)
+            link(at, up(d) + '../ext/' + f[1] if f[0] == 'rel-outside' else os.path.join(ext, f[1]))
+        else:
+            sb.write(at, content)
+    for d, f in shapes.items():
+        if f[0] == 'todir': link((d + '/' if d else '') + IGN, up(d) + f[1])
+    sb.git('add', '--', '*' + IGN); sb.git('commit', '-q', '-m', 'ignore files')
+    return root_ign
+
+
+def plain_listing(chk, xvc, ents, name):
+    """`xvc file list` + `xvc check-ignore` of a second scratch repository (the regular-file twin of a shaped tree)"""
+    sb = Sandbox(chk.scratch, name, xvc)
+    try:
+        if sb.init()[0] != 0: return None, None
+        materialise_repo(sb, ents)
+        rc, out, err = sb.x('file', 'list', '--show-dot-files', '--format', '{{name}}')
+        names = sorted(l for l in out.split('\n') if l and not l.startswith('Total #')) if rc == 0 else None
+        cand = sorted(e[1] for e in ents if e[0] == 'F' and not e[1].endswith(IGN))[:10]
+        rc, out, err = sb.x('check-ignore', *cand) if cand else (0, '', '')
+        ci = sorted(l.replace(sb.root, '') for l in out.split('\n') if l.startswith('['))
+        return names, ci
+    finally:
+        sb.cleanup()
+
+
 def binary_case(chk, pr, xvc, ents, idx, reps, hooked):
     """`xvc file list`, `xvc file track dir/`, `xvc check-ignore` on a scratch repository; returns (oracle msgs, tie msgs)"""
-    ents = [e for e in ents if e[0] != 'L' and not any(s in ('.xvc', '.git') for s in e[1].split('/'))]
+    is_ign = lambda q: q == IGN or q.endswith('/' + IGN)
+    ents = [e for e in ents if (e[0] != 'L' or is_ign(e[1])) and not any(s in ('.xvc', '.git') for s in e[1].split('/'))]
     ents = normalise(ents)
     sb = Sandbox(chk.scratch, f'bin{idx}', xvc)
     msgs, tie = [], []
@@ -651,20 +823,11 @@ def binary_case(chk, pr, xvc, ents, idx, reps, hooked):
         rc, out, err = sb.init()
         if rc != 0:
             return [f'xvc init failed rc={rc}: {err[-200:]}'], tie
-        for e in ents:
-            if e[0] == 'D': os.makedirs(sb.path(e[1]), exist_ok=True)
-        for e in ents:
-            if e[0] == 'F' and not e[1].endswith(IGN): sb.write(e[1], 'data of ' + e[1])
-        root_ign = sb.read(IGN).decode()
-        for e in ents:
-            if e[0] == 'I':
-                # the root file keeps the content `xvc init` wrote (generated XVCIGNORE_INITIAL_CONTENT) in front
-                sb.write((e[1] + '/' if e[1] else '') + IGN, (root_ign if e[1] == '' else '') + e[2])
-        sb.git('add', '--', '*' + IGN); sb.git('commit', '-q', '-m', 'ignore files')
+        root_ign = materialise_repo(sb, ents)
         rc, gl, _ = sb.git('ls-files')
         git_tracked = set(gl.split('\n'))
         # the model's view of this repository
-        ments = [e for e in ents if e[0] != 'I' and not (e[0] == 'F' and e[1] == IGN)] + [('F', IGN), ('F', '.gitignore')]
+        ments = [(('F', e[1]) if e[0] == 'L' else e) for e in ents if e[0] not in 'IS' and not (e[0] == 'F' and e[1] == IGN)] + [('F', IGN), ('F', '.gitignore')]
         ments += [('I', e[1], (root_ign if e[1] == '' else '') + e[2]) for e in ents if e[0] == 'I']
         if not any(e[0] == 'I' and e[1] == '' for e in ments): ments.append(('I', '', root_ign))
         enc = enc_tree(ments)
@@ -688,6 +851,20 @@ def binary_case(chk, pr, xvc, ents, idx, reps, hooked):
                 msgs.append('`xvc file list` shows paths inside .xvc/.git')
             if expect is not None and outs[0] != expect:
                 tie.append(('file-list', outs[0], expect))
+        # the same rules as regular files (second repository): same listing, same check-ignore answers
+        if outs and has_shapes(ents):
+            twin, only = regular_twin(ents)
+            tl, tci = plain_listing(chk, xvc, twin, f'bin{idx}twin')
+            chk.count('binary:shape-twin')
+            if tl is not None and set(tl) - {o[1:] for o in only} != set(outs[0]) - {o[1:] for o in only}:
+                msgs.append(f'ignore-file shape: `xvc file list` selects different paths when the same rules are regular files instead of '
+                            f'{sorted(e[2].split("|")[0] for e in ents if e[0] == "S") or ["a dangling link"]}: {sorted(set(tl) ^ set(outs[0]))}')
+            cand0 = sorted(e[1] for e in twin if e[0] == 'F' and not e[1].endswith(IGN))[:10]
+            if tci is not None and cand0:
+                rc, out, err = sb.x('check-ignore', *cand0)
+                mine = sorted(l.replace(sb.root, '') for l in out.split('\n') if l.startswith('['))
+                if mine != tci:
+                    msgs.append(f'ignore-file shape: `xvc check-ignore` answers differently when the same rules are regular files: {sorted(set(mine) ^ set(tci))}')
         # glob targets select among the considered paths only: nothing the whole listing hides may come back through a glob
         if outs:
             whole = set(outs[0])
@@ -820,13 +997,14 @@ def run(chk: Check):
     large_rule_checks(chk, pr, 21 if quick else 280, 8 if quick else 12)
 
     # ---- S3c/S4 trees: walkers vs model, oracle
-    n_trees = 30 if quick else 420
+    n_trees = 24 if quick else 400
     reps = 25 if quick else 100
     max_us = (300 if quick else 120) if hooked else 0
     st = chk.tie['streams'].setdefault('tree', {'cases': 0, 'disagreements': 0, 'oracle_failures': 0, 'parallel_repetitions': 0})
     twins = [gen_twin_tree(rng, rel, cls, chk) for _ in range(1 if quick else 4) for rel in TWIN_RELATIONS for cls in TWIN_CLASSES]
     larges = [gen_large(rng, draw_size(rng, k), chk)[1] for k in range(7 if quick else 70)]
-    trees = [list(t) for t in CORPUS] + larges + twins + [gen_tree(rng, chk) for _ in range(n_trees)]
+    shapes = gen_shape_trees(rng, 4 if quick else 60, chk)
+    trees = [list(t) for t in CORPUS] + shapes + larges + twins + [gen_tree(rng, chk) for _ in range(n_trees)]
     # known-finding region K11 is kept out of the generated stream: a whitelist line that matches a .xvc/.git directory
     for i, hit in enumerate(special_hits(pr, trees)):
         if hit:
@@ -869,16 +1047,17 @@ def run(chk: Check):
             chk.oracle_failure(msgs[0], {'tree': ents, 'show': show_tree(ents)}, {'all': msgs, 'emitted': obs.get('serial')}, signature=signature(pr, ents, msgs))
 
     # ---- binary level
-    n_bin = 3 if quick else 44
+    n_bin = 2 if quick else 40
     breps = 6 if quick else 20
     bst = chk.tie['streams'].setdefault('binary', {'cases': 0, 'disagreements': 0, 'oracle_failures': 0})
     pick = [(TWIN_RELATIONS[(chk.seed + k) % 3], TWIN_CLASSES[(chk.seed + k) % len(TWIN_CLASSES)]) for k in range(4)] if quick else \
            [(r, c) for r in TWIN_RELATIONS for c in TWIN_CLASSES]
     blarge = [gen_large(rng, draw_size(rng, chk.seed + 4 + k), chk)[1] for k in range(2 if quick else 14)]
-    btrees = [list(CORPUS[0]), list(CORPUS[1]), list(CORPUS[2])] + blarge + [gen_twin_tree(rng, r, c, chk) for r, c in pick] + \
+    bshapes = [seed3_scenario(k2, d2) for k2, d2 in ([('abs-outside', ''), ('chain', 'data')] if quick else [(k3, d3) for k3 in LOADING_SHAPES + NONLOADING_SHAPES for d3 in ('data', '')])]
+    btrees = [list(CORPUS[0]), list(CORPUS[1]), list(CORPUS[2]), list(CORPUS[3])] + blarge + bshapes + [gen_twin_tree(rng, r, c, chk) for r, c in pick] + \
              [gen_tree(rng, chk, special=False) for _ in range(n_bin)]
     for i, ents in enumerate(btrees):
-        msgs, tie = binary_case(chk, pr, xvc, ents, i, 24 if i == 0 else (10 if i in (3, 4) else breps), hooked)
+        msgs, tie = binary_case(chk, pr, xvc, ents, i, 24 if i == 1 else (10 if i in (4, 5) else breps), hooked)
         bst['cases'] += 1; chk.evaluations += 1
         if msgs:
             bst['oracle_failures'] += 1
